@@ -53,6 +53,7 @@ inductive B2Event where
   | rspArrives (j : Nat)        -- response datagram j reaches the client (again)
   | srvExpire                   -- the lg_xmit times out
   | cliExpire                   -- the lg_crcv times out
+  | cliNew                      -- coap_send() sets up a fresh lg_crcv for the token (NON request / Observe), replacing any old one
   deriving Repr, DecidableEq
 
 def mkResp (P : B2Par) (etagCtr num m szx : Nat) (p : Bytes) : Resp :=
@@ -100,6 +101,7 @@ def b2Step (P : B2Par) (s : B2Sys) : B2Event → B2Sys
     | none => s
   | .srvExpire => { s with srv := none }
   | .cliExpire => { s with cli := none }
+  | .cliNew => { s with cli := some {} }
 
 
 /-! ## the composed Block1 system: libcoap client sending a body (PUT) ∘ network ∘ libcoap server, SINGLE_BODY
